@@ -800,8 +800,16 @@ class _SameObject(MatchFunction):
         return str(self.obj)
 
 
+def _tooled_itself(fn):
+    # functools.wraps copies the attributes of the wrapped function onto the
+    # wrapper, __ptera_info__ included: that does not make the wrapper tooled.
+    return is_tooled(fn) and getattr(
+        fn.__wrapped__, "__ptera_info__", None
+    ) is not getattr(fn, "__ptera_info__", None)
+
+
 def _dig(fn):
-    while hasattr(fn, "__wrapped__") and not is_tooled(fn):
+    while hasattr(fn, "__wrapped__") and not _tooled_itself(fn):
         fn = fn.__wrapped__
     if isinstance(fn, property):
         return _dig(fn.fget)
